@@ -199,6 +199,19 @@ func genC14(r *Rng, e *Emitter, n int) {
 			}
 			e.tally("op=lines")
 			var lpt geom.Coord
+			if r.chance(1, 4) {
+				e.tally("lines-incremental")
+				calc := xy.NewLineCentroidCalculator(l)
+				for j := range lines {
+					e.emit("C14.lines", "("+strings.Join(runs[:j+1], " ")+")", guard(func() string {
+						calc.AddLine(lines[j])
+						if j%2 == 1 {
+							calc.GetCentroid()
+						}
+						return okPt(calc.GetCentroid())
+					}))
+				}
+			}
 			e.emit("C14.lines", "("+strings.Join(runs, " ")+")", guard(func() string {
 				if r.chance(1, 2) {
 					lpt = xy.LinesCentroid(lines[0], lines[1:]...)
@@ -212,6 +225,7 @@ func genC14(r *Rng, e *Emitter, n int) {
 			}
 		case k < 8: // polygons with holes, multi-polygons with disjoint members
 			np := 1 + r.Intn(3)
+			allZero := r.chance(1, 12)
 			var polys []*geom.Polygon
 			var psx []string
 			var allFlat []float64
@@ -247,7 +261,7 @@ func genC14(r *Rng, e *Emitter, n int) {
 					rings = [][][2]float64{{tri[0], tri[1], tri[2], tri[0]}}
 					e.tally("sliver-polygon")
 				}
-				if r.chance(1, 12) { // zero-area polygon: falls back to the length-weighted centroid
+				if r.chance(1, 12) || allZero { // zero-area polygon: falls back to the length-weighted centroid
 					a := [2]float64{cx, cy}
 					b := [2]float64{cx + 10, cy + 20}
 					c := [2]float64{cx + 20, cy + 40}
@@ -276,6 +290,21 @@ func genC14(r *Rng, e *Emitter, n int) {
 			}
 			e.tally("op=polys")
 			var ppt geom.Coord
+			if r.chance(1, 4) {
+				// one calculator used as the polygons arrive: asked after each polygon, it answers for the
+				// polygons added so far
+				e.tally("polys-incremental")
+				calc := xy.NewAreaCentroidCalculator(l)
+				for j := range polys {
+					e.emit("C14.polys", "("+strings.Join(psx[:j+1], " ")+")", guard(func() string {
+						calc.AddPolygon(polys[j])
+						if j%2 == 1 {
+							calc.GetCentroid() // asking twice changes nothing
+						}
+						return okPt(calc.GetCentroid())
+					}))
+				}
+			}
 			e.emit("C14.polys", "("+strings.Join(psx, " ")+")", guard(func() string {
 				switch r.Intn(3) {
 				case 0:
